@@ -165,13 +165,15 @@ func init() {
 	// metrics conns=<kind,kind,...> hto=<ms>: run the connections concurrently, wait for every accepted
 	// connection to be closed by the proxy, report the counter vector.
 	registerOp("metrics", func(a []string) string {
-		var kinds []string
+		var kinds, held []string
 		hto := 400
 		for _, t := range a {
 			if strings.HasPrefix(t, "conns=") {
 				kinds = strings.Split(t[6:], ",")
 			} else if strings.HasPrefix(t, "hto=") {
 				hto, _ = strconv.Atoi(t[4:])
+			} else if strings.HasPrefix(t, "hold=") && len(t) > 5 {
+				held = strings.Split(t[5:], ",")
 			}
 		}
 		o := defaultE2EOpts()
@@ -199,6 +201,56 @@ func init() {
 			time.Sleep(20 * time.Millisecond)
 		}
 		time.Sleep(30 * time.Millisecond) // a late double count would show up here
+		vec := func() string {
+			g := gatherRequestsTotal(env)
+			var keys []string
+			for k := range g {
+				keys = append(keys, k)
+			}
+			sort.Strings(keys)
+			var parts []string
+			for _, k := range keys {
+				parts = append(parts, fmt.Sprintf("%s=%d", k, g[k]))
+			}
+			return strings.Join(parts, ",")
+		}
+		mid := ""
+		if len(held) > 0 {
+			// connections that have been served and are STILL OPEN: a connection is counted when it ends, so the sample taken now
+			// must not contain them; once they are closed it must
+			var open []net.Conn
+			for i, k := range held {
+				alpn := []string{"http/1.1"}
+				if k == "h2" {
+					alpn = []string{"h2"}
+				}
+				conn, _, neg, err := dialProxy(env, clientCfg{kind: "go", sni: "example.test", alpn: alpn, peer: "127.0.0.1"})
+				if err != nil {
+					continue
+				}
+				req := []e2eReq{{method: "GET", path: "/", host: "example.test", order: "mspa", tag: fmt.Sprintf("held%d", i)}}
+				if neg == "h2" {
+					h2Exchange(conn, []string{"S:", "H:1.1.-.0.0"}, req)
+				} else {
+					h1Exchange(conn, req)
+				}
+				open = append(open, conn)
+			}
+			time.Sleep(150 * time.Millisecond)
+			mid = " while-open:" + vec()
+			for _, c := range open {
+				c.Close()
+			}
+			deadline := time.Now().Add(5 * time.Second)
+			for time.Now().Before(deadline) {
+				acc, closed := env.accepted.stats()
+				if closed == acc {
+					break
+				}
+				time.Sleep(20 * time.Millisecond)
+			}
+			time.Sleep(50 * time.Millisecond)
+		}
 		g := gatherRequestsTotal(env)
 		var keys []string
 		for k := range g {
@@ -210,7 +262,7 @@ func init() {
 			parts = append(parts, fmt.Sprintf("%s=%d", k, g[k]))
 		}
 		acc, closed := env.accepted.stats()
-		return fmt.Sprintf("accepted=%d closed=%d %s", acc, closed, strings.Join(parts, " "))
+		return fmt.Sprintf("accepted=%d closed=%d %s%s", acc, closed, strings.Join(parts, " "), mid)
 	})
 
 	register("metrics", "requests_total: batches of concurrent connections with every outcome against the real stack", func(c *ctx) {
@@ -225,7 +277,12 @@ func init() {
 				ks = append(ks, k)
 				c.tag("kind:" + k)
 			}
-			c.op(fmt.Sprintf("metrics conns=%s hto=%d", strings.Join(ks, ","), []int{300, 500}[r.intn(2)]))
+			hold := ""
+			if r.chance(1, 3) {
+				hold = " hold=" + []string{"h1", "h2", "h1,h2", "h2,h2,h1"}[r.intn(4)]
+				c.tag("held-open-while-sampling")
+			}
+			c.op(fmt.Sprintf("metrics conns=%s hto=%d%s", strings.Join(ks, ","), []int{300, 500}[r.intn(2)], hold))
 		}
 	})
 }
